@@ -55,7 +55,7 @@ pub fn cases(tier: Tier) -> Vec<Case> {
         }
     }
     // aggregates: argument lists of length 0..3 over a 9-value sub-alphabet
-    let sub = vec![d("1"), d("2"), d("-1"), d("0.5"), d("2.0"), Value::Number(rust_decimal::Decimal::MAX), Value::Bool(true), Value::String("a".into()), Value::None];
+    let sub = vec![d("1"), d("2"), d("-1"), d("0"), d("0.5"), d("2.0"), d("0.0000000000000000000000000001"), Value::Number(rust_decimal::Decimal::MAX), Value::Bool(true), Value::String("a".into()), Value::None];
     let mut arglists: Vec<Vec<&Value>> = vec![vec![]];
     for a in &sub {
         arglists.push(vec![a]);
@@ -107,6 +107,9 @@ pub fn cases(tier: Tier) -> Vec<Case> {
             out.push(Case { program: "{a : b}".into(), bindings: bind(&["a", "b"], &[c, b]), key: format!("map:{}:{}", class(c), class(b)), lenient_err: false });
             out.push(Case { program: "a in [b, a]".into(), bindings: bind(&["a", "b"], &[c, b]), key: format!("in-constructed:{}:{}", class(c), class(b)), lenient_err: false });
             out.push(Case { program: "a in [b]".into(), bindings: bind(&["a", "b"], &[c, b]), key: format!("in-singleton:{}:{}", class(c), class(b)), lenient_err: false });
+            // a map is the ordered list of every written pair, equal keys included
+            out.push(Case { program: "{a : 1, b : 2}".into(), bindings: bind(&["a", "b"], &[c, b]), key: format!("map2:{}:{}", class(c), class(b)), lenient_err: false });
+            out.push(Case { program: "{a : b, a : a} == {a : b, a : a}".into(), bindings: bind(&["a", "b"], &[c, b]), key: format!("map2-eq:{}:{}", class(c), class(b)), lenient_err: false });
         }
     }
     // depth-2 compositions (a op1 b) op2 c
